@@ -1314,30 +1314,46 @@ package ucfg
 //@ ensures [both_fail] rrVal(r, cfg, opts) == nil && (rrErr(r, cfg, opts) == nil || (isTyped(rrErr(r, cfg, opts)) && reasonOf(rrErr(r, cfg, opts)) == old(ErrMissing))) && !reOk(r, cfg, opts) ==> v == nil && err != nil
 
 //@ func (*expansionSingle).eval :: e, cfg, opts -> s, err
-//@ props C02
+//@ props C02 C08
+//@ at-call iface:varEvaler.eval requires opts != nil && opts.activeFields != nil && forall k string :: !has(opts.activeFields.fields, k)
+//@ at-call (*reference).eval requires opts != nil && opts.activeFields != nil && forall k string :: !has(opts.activeFields.fields, k)
+//@ at-call (*reference).resolve requires opts != nil && opts.activeFields != nil && forall k string :: !has(opts.activeFields.fields, k)
+//@ ensures [scope @C08] opts.activeFields == old(opts.activeFields)
 //@ requires e != nil && opts != nil && e.evaler != nil && !inTree(opts, e) && !inTree(opts, opts)
-//@ modifies tree(opts)
+//@ modifies tree(opts), opts.activeFields
 //@ ensures [name_fails] !evOk(old(e.evaler), cfg) ==> err != nil
 //@ ensures [value] evOk(old(e.evaler), cfg) ==> (err == nil) == refOk(evStr(old(e.evaler), cfg), cfg) && (err == nil ==> s == refStr(evStr(old(e.evaler), cfg), cfg))
 
 //@ func (*expansionDefault).eval :: e, cfg, opts -> s, err
-//@ props C02
+//@ props C02 C08
+//@ at-call iface:varEvaler.eval requires opts != nil && opts.activeFields != nil && forall k string :: !has(opts.activeFields.fields, k)
+//@ at-call (*reference).eval requires opts != nil && opts.activeFields != nil && forall k string :: !has(opts.activeFields.fields, k)
+//@ at-call (*reference).resolve requires opts != nil && opts.activeFields != nil && forall k string :: !has(opts.activeFields.fields, k)
+//@ ensures [scope @C08] opts.activeFields == old(opts.activeFields)
 //@ requires e != nil && opts != nil && e.expansion.left != nil && e.expansion.right != nil && !inTree(opts, e) && !inTree(opts, opts)
-//@ modifies tree(opts)
+//@ modifies tree(opts), opts.activeFields
 //@ ensures [value] evOk(old(e.expansion.left), cfg) && evStr(old(e.expansion.left), cfg) != "" && refOk(evStr(old(e.expansion.left), cfg), cfg) && refStr(evStr(old(e.expansion.left), cfg), cfg) != "" ==> err == nil && s == refStr(evStr(old(e.expansion.left), cfg), cfg)
 //@ ensures [default] !(evOk(old(e.expansion.left), cfg) && evStr(old(e.expansion.left), cfg) != "" && refOk(evStr(old(e.expansion.left), cfg), cfg) && refStr(evStr(old(e.expansion.left), cfg), cfg) != "") ==> (err == nil) == evOk(old(e.expansion.right), cfg) && (err == nil ==> s == evStr(old(e.expansion.right), cfg))
 
 //@ func (*expansionAlt).eval :: e, cfg, opts -> s, err
-//@ props C02
+//@ props C02 C08
+//@ at-call iface:varEvaler.eval requires opts != nil && opts.activeFields != nil && forall k string :: !has(opts.activeFields.fields, k)
+//@ at-call (*reference).eval requires opts != nil && opts.activeFields != nil && forall k string :: !has(opts.activeFields.fields, k)
+//@ at-call (*reference).resolve requires opts != nil && opts.activeFields != nil && forall k string :: !has(opts.activeFields.fields, k)
+//@ ensures [scope @C08] opts.activeFields == old(opts.activeFields)
 //@ requires e != nil && opts != nil && e.expansion.left != nil && e.expansion.right != nil && !inTree(opts, e) && !inTree(opts, opts)
-//@ modifies tree(opts)
+//@ modifies tree(opts), opts.activeFields
 //@ ensures [unset] !(evOk(old(e.expansion.left), cfg) && evStr(old(e.expansion.left), cfg) != "" && resOk(evStr(old(e.expansion.left), cfg), cfg) && resVal(evStr(old(e.expansion.left), cfg), cfg) != nil) ==> err == nil && s == ""
 //@ ensures [set] evOk(old(e.expansion.left), cfg) && evStr(old(e.expansion.left), cfg) != "" && resOk(evStr(old(e.expansion.left), cfg), cfg) && resVal(evStr(old(e.expansion.left), cfg), cfg) != nil ==> (err == nil) == evOk(old(e.expansion.right), cfg) && (err == nil ==> s == evStr(old(e.expansion.right), cfg))
 
 //@ func (*expansionErr).eval :: e, cfg, opts -> s, err
-//@ props C02
+//@ props C02 C08
+//@ at-call iface:varEvaler.eval requires opts != nil && opts.activeFields != nil && forall k string :: !has(opts.activeFields.fields, k)
+//@ at-call (*reference).eval requires opts != nil && opts.activeFields != nil && forall k string :: !has(opts.activeFields.fields, k)
+//@ at-call (*reference).resolve requires opts != nil && opts.activeFields != nil && forall k string :: !has(opts.activeFields.fields, k)
+//@ ensures [scope @C08] opts.activeFields == old(opts.activeFields)
 //@ requires e != nil && opts != nil && e.expansion.left != nil && e.expansion.right != nil && !inTree(opts, e) && !inTree(opts, opts)
-//@ modifies tree(opts)
+//@ modifies tree(opts), opts.activeFields
 //@ ensures [value] evOk(old(e.expansion.left), cfg) && evStr(old(e.expansion.left), cfg) != "" && refOk(evStr(old(e.expansion.left), cfg), cfg) && refStr(evStr(old(e.expansion.left), cfg), cfg) != "" ==> err == nil && s == refStr(evStr(old(e.expansion.left), cfg), cfg)
 //@ ensures [fails] !(evOk(old(e.expansion.left), cfg) && evStr(old(e.expansion.left), cfg) != "" && refOk(evStr(old(e.expansion.left), cfg), cfg) && refStr(evStr(old(e.expansion.left), cfg), cfg) != "") ==> err != nil
 
@@ -2358,3 +2374,27 @@ package ucfg
 //@ ensures [nil_is_valid] (rvKind(chasedI(val)) == 22 || rvKind(chasedI(val)) == 20) && rvNil(chasedI(val)) ==> result == nil
 //@ ensures [no_method] !implOf(rvType(chasedI(val)), old(tValidator)) && !implOf(ptrTo(rvType(chasedI(val))), old(tValidator)) ==> result == nil
 //@ ensures [value_receiver] !((rvKind(chasedI(val)) == 22 || rvKind(chasedI(val)) == 20) && rvNil(chasedI(val))) && implOf(rvType(chasedI(val)), old(tValidator)) ==> result == valRes(rvAny(chasedI(val)).(Validator))
+
+//@ func (*expansionSingle).eval$1
+//@ props C08
+//@ requires deref(opts) != nil
+//@ modifies deref(opts).activeFields
+//@ ensures [restore] deref(opts).activeFields == deref(parentFields)
+
+//@ func (*expansionDefault).eval$1
+//@ props C08
+//@ requires deref(opts) != nil
+//@ modifies deref(opts).activeFields
+//@ ensures [restore] deref(opts).activeFields == deref(parentFields)
+
+//@ func (*expansionAlt).eval$1
+//@ props C08
+//@ requires deref(opts) != nil
+//@ modifies deref(opts).activeFields
+//@ ensures [restore] deref(opts).activeFields == deref(parentFields)
+
+//@ func (*expansionErr).eval$1
+//@ props C08
+//@ requires deref(opts) != nil
+//@ modifies deref(opts).activeFields
+//@ ensures [restore] deref(opts).activeFields == deref(parentFields)
